@@ -170,7 +170,11 @@ func runCase(c Case) (out Out) {
 		}
 		out.R = minReplicas
 	} else {
-		h = hash.NewCustomConsistentHash(c.R, fn)
+		if c.Hash != "small" && c.R%20 == 0 {
+			h = hash.NewCustomConsistentHash(c.R, nil) // a nil Func means hash.Hash
+		} else {
+			h = hash.NewCustomConsistentHash(c.R, fn)
+		}
 		out.R = c.R
 		if out.R < minReplicas {
 			out.R = minReplicas
